@@ -217,6 +217,7 @@ type Case struct {
 	removedMsgs  []removedMsg
 	roundLowered bool
 	c02          bool // evaluate the C02 certificate oracle after every controller op
+	role         int  // 2 = controller of the second duty role of a multi-node schedule (crossrole.go)
 	roundBefore  specqbft.Round
 	lastRet      *specqbft.SignedMessage
 	tags         []string // distribution tags collected while the case ran
@@ -290,8 +291,12 @@ func (c *Case) resetLine() string {
 	if len(bad) > 0 {
 		bs = strings.Join(bad, "+")
 	}
-	return fmt.Sprintf("reset mode=%s n=%d q=%d pq=%d op=%d h=%d cutoff=%d cap=%d bad=%s", mode, c.env.n, c.env.q, c.env.pq, uint64(c.op),
-		uint64(c.height), instance.CutoffRound, controller.InstanceContainerDefaultCapacity, bs)
+	role := ""
+	if c.role == 2 {
+		role = " role=2" // ignored by the model driver; multi-node replays keep the two duty roles apart
+	}
+	return fmt.Sprintf("reset mode=%s n=%d q=%d pq=%d op=%d h=%d cutoff=%d cap=%d bad=%s%s", mode, c.env.n, c.env.q, c.env.pq, uint64(c.op),
+		uint64(c.height), instance.CutoffRound, controller.InstanceContainerDefaultCapacity, bs, role)
 }
 
 // fmtEvents: in controller ops a broadcast carrying more than one signer can only be Controller.broadcastDecided
